@@ -169,7 +169,7 @@ func c02Check(c *Ctx, doc *XElem, cfg Cfg, enc, prefix, indent string, choices [
 	return true
 }
 
-var c02Vals = []string{"v", " v ", "1.0", "true", "<&\"'>", "it's", "é\tü\n", "007", "&amp;", "]]>", "say \"hi\"", "3.14159265", "16777217", "-1.7976931348623157e308", "a\ufffdb\U0001F600", "18446744073709551615"}
+var c02Vals = []string{"v", " v ", "1.0", "true", "<&\"'>", "it's", "é\tü\n", "007", "&amp;", "]]>", "say \"hi\"", "\u0141 & \u4e2d<\u00e9", "3.14159265", "16777217", "-1.7976931348623157e308", "a\ufffdb\U0001F600", "18446744073709551615"}
 
 // c02CoreValues: when set, c02Decos uses the first 9 values only (pairs of decorations in the quick tier).
 var c02CoreValues bool
@@ -248,6 +248,9 @@ func c02Cfgs(maxDev int) []Cfg {
 				if dev <= 1 {
 					cfg.Toggle = true // the same configuration reached through the no-argument setter forms
 					out = append(out, cfg)
+					cfg.Toggle = false
+					cfg.NoOpSetters = true // ... and with every other boolean setter called with its default afterwards
+					out = append(out, cfg)
 				}
 			}
 		}
@@ -257,7 +260,7 @@ func c02Cfgs(maxDev int) []Cfg {
 
 func c02Run(c *Ctx) {
 	mustBeDefault(c)
-	c.S.Rule = "cases = (document, configuration, encoder): documents are all element trees with <= N elements (names over {a,b}) with <= 1 decoration (quick: trees with N-1 elements meet every second (configuration, document, encoder) triple and all configurations with <= 2 deviations, trees with N elements the latter only) (attribute / text at every position / renamed element; values with all five XML special characters, blanks, tab/newline, non-ASCII, number and boolean look-alikes, an already-escaped sequence, ]]>) under all 512 symmetric configurations (attribute prefix {-,@} x key prefix {#,_} x lower x snake x simple-as-map x keep-spaces x escaping {encoder-side, decoder-side, both requested in either call order, both requested through the no-argument setter forms} x cast; configurations with <= 1 deviation also reached through the no-argument (toggle) setter forms), and with 2 decorations (quick: over the first 9 values) under configurations with <= 2 option deviations; encoders Xml and XmlIndent with (prefix,indent) in {(\"\",\"  \"),(\"\",\"\\t\"),(\" \",\" \")}. Oracle: re-encoded text well formed (single root), decode(encode(m1)) == m1, and the reference decode of the re-encoded text's parse equals m1. Ascending and descending map order; E-choice bound 1 over map order on the small documents. non-trivial = round trip executed."
+	c.S.Rule = "cases = (document, configuration, encoder): documents are all element trees with <= N elements (names over {a,b}) with <= 1 decoration (quick: trees with N-1 elements meet every second (configuration, document, encoder) triple and all configurations with <= 2 deviations, trees with N elements the latter only) (attribute / text at every position / renamed element; values with all five XML special characters, blanks, tab/newline, non-ASCII, number and boolean look-alikes, an already-escaped sequence, ]]>) under all 512 symmetric configurations (attribute prefix {-,@} x key prefix {#,_} x lower x snake x simple-as-map x keep-spaces x escaping {encoder-side, decoder-side, both requested in either call order, both requested through the no-argument setter forms, every other boolean setter called with its default value afterwards} x cast; configurations with <= 1 deviation also reached through the no-argument (toggle) setter forms), and with 2 decorations (quick: over the first 9 values) under configurations with <= 2 option deviations; encoders Xml and XmlIndent with (prefix,indent) in {(\"\",\"  \"),(\"\",\"\\t\"),(\" \",\" \")}. Oracle: re-encoded text well formed (single root), decode(encode(m1)) == m1, and the reference decode of the re-encoded text's parse equals m1. Ascending and descending map order; E-choice bound 1 over map order on the small documents. non-trivial = round trip executed."
 	c.S.Assumptions = []string{"element names do not begin with the attribute prefix; attribute prefixes non-empty (as the property states)", "integer casting and tag sequence numbers excluded (documented as asymmetric)"}
 	maxA, maxB, ech := 4, 3, 2
 	if c.Thorough {
